@@ -1258,3 +1258,81 @@ Proof.
   unfold size_ok, rsa_size_ok, ec_size_ok. destruct a;
     repeat rewrite orb_true_iff; repeat rewrite Z.eqb_eq; tauto.
 Qed.
+
+(** * The scopes-matcher decode hook (C19-F9) *)
+
+(** the hook hits one of its unchecked assertions exactly on these values *)
+Definition scopes_values_bad (v : yv) : bool :=
+  match v with YList l => negb (forallb is_ystr l) | _ => true end.
+
+Definition guard_F9 (f : fixes) (v : yv) : bool :=
+  negb (fx9 f) &&
+  match v with
+  | YList _ => scopes_values_bad v
+  | YMapAny => true
+  | YMap m =>
+    match lookup "matching_strategy" m with
+    | Some (YStr s) => known_strategy s && match lookup "values" m with Some x => scopes_values_bad x | None => false end
+    | Some _ => true
+    | None => match lookup "values" m with Some x => scopes_values_bad x | None => false end
+    end
+  | _ => false
+  end.
+
+Lemma scopes_assert_panic f s : scopes_assert f = Panic s <-> (s = SScopes /\ fx9 f = false).
+Proof.
+  unfold scopes_assert. destruct (fx9 f); split; try discriminate.
+  - intros [_ H]; discriminate.
+  - intros H; inversion H; auto.
+  - intros [-> _]; reflexivity.
+Qed.
+
+Lemma scopes_values_panic f v s :
+  scopes_values f v = Panic s <-> (s = SScopes /\ fx9 f = false /\ scopes_values_bad v = true).
+Proof.
+  unfold scopes_values, scopes_values_bad.
+  destruct v; try (rewrite scopes_assert_panic; tauto).
+  destruct (forallb is_ystr l); simpl.
+  - split; [discriminate|intros [_ [_ H]]; discriminate].
+  - rewrite scopes_assert_panic. tauto.
+Qed.
+
+Lemma guard_shape f (b : bool) (s : site) :
+  (s = SScopes /\ fx9 f = false /\ b = true) <-> (s = SScopes /\ negb (fx9 f) && b = true).
+Proof. destruct (fx9 f), b; simpl; split; intros H; try tauto; destruct H as [? H]; try discriminate; destruct H; discriminate. Qed.
+
+Lemma no_panic_shape {A} (r : res A) f (s : site) :
+  (forall s', r <> Panic s') -> (r = Panic s <-> (s = SScopes /\ negb (fx9 f) && false = true)).
+Proof. intros H. rewrite andb_false_r. split; [intros E; exfalso; eapply H; eauto|intros [_ E]; discriminate]. Qed.
+
+Lemma vals_panic f m s :
+  match lookup "values" m with Some x => scopes_values f x | None => Err end = Panic s <->
+  (s = SScopes /\ negb (fx9 f) && match lookup "values" m with Some x => scopes_values_bad x | None => false end = true).
+Proof.
+  destruct (lookup "values" m) as [y|].
+  - rewrite scopes_values_panic. apply guard_shape.
+  - apply no_panic_shape. discriminate.
+Qed.
+
+Theorem decode_scopes_panic_iff f v s :
+  decode_scopes f v = Panic s <-> (s = SScopes /\ guard_F9 f v = true).
+Proof.
+  unfold decode_scopes, guard_F9.
+  destruct v as [| | | | |l|m|]; try (apply no_panic_shape; discriminate).
+  - rewrite scopes_values_panic. apply guard_shape.
+  - destruct (lookup "matching_strategy" m) as [[| | | |x| | |]|];
+      try (rewrite scopes_assert_panic; rewrite <- (guard_shape f true s); tauto).
+    + destruct (known_strategy x).
+      * rewrite andb_true_l. apply vals_panic.
+      * rewrite andb_false_l. apply no_panic_shape. discriminate.
+    + apply vals_panic.
+  - rewrite scopes_assert_panic. rewrite <- (guard_shape f true s). tauto.
+Qed.
+
+Theorem decode_scopes_total_fixed f v s : fx9 f = true -> decode_scopes f v <> Panic s.
+Proof.
+  intros F H. apply decode_scopes_panic_iff in H. destruct H as [_ H]. unfold guard_F9 in H. rewrite F in H. discriminate.
+Qed.
+
+Theorem F9_refuted : exists v, guard_F9 no_fixes v = true /\ exists s, decode_scopes no_fixes v = Panic s.
+Proof. exists (YList [YInt 1]). split; [reflexivity|eexists; reflexivity]. Qed.
